@@ -52,7 +52,7 @@ pub fn run(ctx: &mut Ctx) {
             cases.push((format!("multicap#{i}"), l));
         }
     }
-    ctx.ev.rule = "corpus + fixtures + generated ledgers with CAPRETURN/ACCUMULATION/DIVIDEND at any position, plus ledgers with 2–3 capital returns (and sometimes an accumulation) of one security on one date whose sum straddles the remaining expenditure. Oracles on the real matcher: (a) removing every DIVIDEND line changes no leg and no holding; (b) inserting an ACCUMULATION and a CAPRETURN of equal net amount on one date (in either line order) changes nothing and is not refused; (c) inserting one ACCUMULATION of v on a date where shares are held (ledgers without splits) raises Σ legs' cost + closing cost of that security by exactly v and leaves other securities alone; a CAPRETURN lowers it by exactly its net amount or is refused with a message citing S122; (d) no leg or holding has negative allowable cost — except inside known-finding class negativeLot (D6), decided by the Lean model of the pre-pass. Correspondence: accept/refuse and costs vs the model. Non-trivial = ledgers with an effective cost event; distinct by ledger text.".into();
+    ctx.ev.rule = "corpus + fixtures + generated ledgers with CAPRETURN/ACCUMULATION/DIVIDEND at any position, plus ledgers with 2–3 capital returns (and sometimes an accumulation) of one security on one date whose sum straddles the remaining expenditure. Oracles on the real matcher: (a) removing every DIVIDEND line changes no leg and no holding; (b) inserting an ACCUMULATION and a CAPRETURN of equal net amount on one date (in either line order) changes nothing and is not refused; (c) inserting one ACCUMULATION of v on a date where shares are held (position rescaled by earlier splits) raises Σ legs' cost + closing cost of that security by exactly v and leaves other securities alone; a CAPRETURN lowers it by exactly its net amount or is refused with a message citing S122; (d) no leg or holding has negative allowable cost — except inside known-finding class negativeLot (D6), decided by the Lean model of the pre-pass. Correspondence: accept/refuse and costs vs the model. Non-trivial = ledgers with an effective cost event; distinct by ledger text.".into();
     let mut r = Rng::new(ctx.seed ^ 0xC11);
     let mut cli_left: u32 = if ctx.tier == Tier::Quick { 8 } else { 80 };
     for (name, l) in cases {
@@ -97,11 +97,7 @@ pub fn run(ctx: &mut Ctx) {
             // (b) equal events cancel, in both line orders — on dates where shares are held (with
             // nothing held the accumulation has nothing to attach to and the capital return is an
             // input error, refused as such)
-            let held_unscaled = {
-                let mut p = Q::zero();
-                for t in l.iter().filter(|t| t.ticker == tk && t.date < date) { match t.kind { Kind::Buy => p = p.add(&Q::from_dec(t.a)), Kind::Sell => p = p.sub(&Q::from_dec(t.a)), _ => {} } }
-                p.is_pos()
-            };
+            let held_unscaled = position_before(&l, &tk, date).is_pos();
             if !held_unscaled { ctx.ev.count("cancel-skipped-nothing-held"); }
             for order in 0..(if held_unscaled { 2 } else { 0 }) {
                 let mut var = l.clone();
@@ -116,13 +112,10 @@ pub fn run(ctx: &mut Ctx) {
                     break;
                 }
             }
-            // (c) a single event moves cost by exactly its amount (no splits: "held" is the plain position)
-            if !has_splits(&l) {
-                let pos = {
-                    let mut p = Q::zero();
-                    for t in l.iter().filter(|t| t.ticker == tk && t.date < date) { match t.kind { Kind::Buy => p = p.add(&Q::from_dec(t.a)), Kind::Sell => p = p.sub(&Q::from_dec(t.a)), _ => {} } }
-                    p
-                };
+            // (c) a single event moves cost by exactly its amount when shares are held as its day begins
+            // (position in the units then current: splits rescale it)
+            {
+                let pos = position_before(&l, &tk, date);
                 let mut var = l.clone();
                 var.push(GTx::new(date, &tk, Kind::Accumulation, Decimal::ONE, v, Decimal::ZERO));
                 if let Ok(vout) = run_impl::impl_match(&var) {
